@@ -30,6 +30,73 @@ class Binding:
     guarded: bool = False  # inside a module-level if/try (conditional binding)
 
 
+def _canonicalise(tree: ast.AST) -> None:
+    """Copy propagation of return temporaries, applied to every function before any rule looks at it:
+    `x = EXPR` immediately followed by `return x`, with `x` stored once and loaded once in the whole function, becomes
+    `return EXPR`.  The two forms denote the same program; canonicalising them means no rule can depend on which one is used."""
+    for fn in [n for n in ast.walk(tree) if isinstance(n, (ast.FunctionDef, ast.AsyncFunctionDef))]:
+        counts: Dict[str, List[int]] = {}
+        for n in ast.walk(fn):
+            if isinstance(n, ast.Name):
+                c = counts.setdefault(n.id, [0, 0])
+                c[0 if isinstance(n.ctx, ast.Store) else 1] += 1
+            elif isinstance(n, ast.arg):
+                counts.setdefault(n.arg, [0, 0])[0] += 1
+            elif isinstance(n, (ast.Global, ast.Nonlocal)):
+                for nm in n.names:
+                    counts.setdefault(nm, [0, 0])[0] += 2
+
+        # names all of whose occurrences are `x = E` immediately followed by `return x` (possibly several such pairs)
+        pairs: Dict[str, int] = {}
+
+        def count_pairs(stmts):
+            for i, st in enumerate(stmts):
+                nxt = stmts[i + 1] if i + 1 < len(stmts) else None
+                if (isinstance(st, ast.Assign) and len(st.targets) == 1 and isinstance(st.targets[0], ast.Name) and isinstance(nxt, ast.Return)
+                        and isinstance(nxt.value, ast.Name) and nxt.value.id == st.targets[0].id):
+                    pairs[st.targets[0].id] = pairs.get(st.targets[0].id, 0) + 1
+                for field in ("body", "orelse", "finalbody"):
+                    v = getattr(st, field, None)
+                    if isinstance(v, list) and v and isinstance(v[0], ast.stmt) and not isinstance(st, (ast.FunctionDef, ast.AsyncFunctionDef, ast.ClassDef)):
+                        count_pairs(v)
+                for h in getattr(st, "handlers", []) or []:
+                    count_pairs(h.body)
+
+        count_pairs(fn.body)
+        for nm, k in pairs.items():
+            if counts.get(nm) == [k, k]:
+                counts[nm] = [1, 1]  # marks the name as a pure return temporary
+
+        def fix(stmts: List[ast.stmt]) -> List[ast.stmt]:
+            out: List[ast.stmt] = []
+            i = 0
+            while i < len(stmts):
+                st = stmts[i]
+                nxt = stmts[i + 1] if i + 1 < len(stmts) else None
+                if (isinstance(st, ast.Assign) and len(st.targets) == 1 and isinstance(st.targets[0], ast.Name) and isinstance(nxt, ast.Return)
+                        and isinstance(nxt.value, ast.Name) and nxt.value.id == st.targets[0].id and counts.get(st.targets[0].id) == [1, 1]):
+                    r = ast.Return(value=st.value)
+                    ast.copy_location(r, st)
+                    r.end_lineno, r.end_col_offset = getattr(nxt, "end_lineno", None), getattr(nxt, "end_col_offset", None)
+                    out.append(r)
+                    i += 2
+                    continue
+                for field in ("body", "orelse", "finalbody"):
+                    v = getattr(st, field, None)
+                    if isinstance(v, list) and v and isinstance(v[0], ast.stmt) and not isinstance(st, (ast.FunctionDef, ast.AsyncFunctionDef, ast.ClassDef)):
+                        setattr(st, field, fix(v))
+                for h in getattr(st, "handlers", []) or []:
+                    h.body = fix(h.body)
+                if isinstance(st, ast.Match):
+                    for case in st.cases:
+                        case.body = fix(case.body)
+                out.append(st)
+                i += 1
+            return out
+
+        fn.body = fix(fn.body)
+
+
 class Module:
     def __init__(self, name: str, path: str, rel: str, source: str, is_pkg: bool):
         self.name = name
@@ -39,6 +106,7 @@ class Module:
         self.lines = source.splitlines()
         self.is_pkg = is_pkg
         self.tree = ast.parse(source, filename=path)
+        _canonicalise(self.tree)
         self.parent: Dict[ast.AST, ast.AST] = {}
         for p in ast.walk(self.tree):
             for c in ast.iter_child_nodes(p):
